@@ -487,9 +487,12 @@ def oracle_x(case):
     fails = []
     keys = list(case["keys"])
     base = None
+    shared_keys = list(keys)
     for disc, keep in OPTS:
         I = E.to_nx(case["X"])
-        rc = get_rc(I, element_key=list(keys), disconnected=disc, keep_mtg=keep)
+        rc = get_rc(I, element_key=shared_keys, disconnected=disc, keep_mtg=keep)
+        if shared_keys != keys:
+            return [dict(clause="opt-argument-mutated", detail="get_rc changed the element_key list it was given: %r -> %r" % (keys, shared_keys))]
         tag = "disconnected=%s keep_mtg=%s element_key=%r" % (disc, keep, keys)
         bonds, atoms = ref_centre(E.to_nx(case["X"]), keys, disc, keep)
         got = {frozenset((u, v)): (tuple(d.get("order", ())), d.get("standard_order"), d.get("is_mtg", "<absent>")) for u, v, d in rc.edges(data=True)}
@@ -1168,7 +1171,7 @@ def gen_histories(rng, tier):
     several times in one list"""
     q = tier == "quick"
     cases = []
-    per = {"a": 60, "b": 120, "b2": 90, "c": 70, "d": 50, "e": 40} if q else {"a": 400, "b": 900, "b2": 700, "c": 500, "d": 300, "e": 300}
+    per = {"a": 60, "b": 120, "b2": 90, "b3": 60, "c": 70, "d": 50, "e": 40} if q else {"a": 400, "b": 900, "b2": 700, "b3": 400, "c": 500, "d": 300, "e": 300}
     for fl, cnt in per.items():
         for _ in range(cnt):
             g = _rand_its(rng, rng.randint(2, 9), "its-rand") if rng.random() < 0.85 else _cyclic_its(rng, rng.randint(3, 6))
